@@ -394,6 +394,30 @@ func runData(c *lfCase, res *engine.Result) (fails []*lfFail, ntexts int, outcom
 		outcome = "loadform-panic"
 		return
 	}
+	// the load form is a function of the content: asking again, and asking a second object built the same way, gives
+	// the same form (a table's form must not depend on the iteration order of the map behind it)
+	if !c.funky && !strings.HasPrefix(c.obj, "go-symbol:") && (c.kind == "hash-table" || c.kind == "list" || c.kind == "vector" || c.kind == "array") {
+		base := lisp.Show(form)
+		same := true
+		func() {
+			defer func() { _ = recover() }()
+			for i := 0; i < 8 && same; i++ {
+				same = lisp.Show(lf.LoadForm()) == base
+			}
+			if obj2, err := lisp.EvalIn(slip.NewScope(), ren(c.obj)); err == nil && same {
+				if lf2, ok2 := obj2.(slip.LoadFormer); ok2 {
+					same = lisp.Show(lf2.LoadForm()) == base
+				}
+			}
+		}()
+		res.Hit("lf-determinism-checked")
+		if !same {
+			fails = append(fails, &lfFail{what: "loadform-not-a-function-of-the-content", detail: "LoadForm() of " + show(obj) + " gives different forms when asked again / for a second object built the same way; first: " + base, margin: minMargin})
+			ntexts = 1
+			outcome = "loadform-nondeterministic"
+			return
+		}
+	}
 	texts, fault, fm := ppAll([]slip.Object{form})
 	if fault != "" {
 		fails = append(fails, &lfFail{what: "pp-panic", detail: fmt.Sprintf("pp.Append at margin %d of %s => %s", fm, lisp.Show(form), fault), margin: fm})
